@@ -125,7 +125,7 @@ def compute_slice(fnode: ast.AST, criterion: Callable[[ast.AST], bool], stop: se
     crit_nodes: list[ast.AST] = []
     for st, _ in allst:
         if isinstance(st, _COMPOUND) or isinstance(st, (ast.FunctionDef, ast.AsyncFunctionDef, ast.ClassDef)):
-            heads = [st.test] if isinstance(st, (ast.If, ast.While)) else []
+            heads = [st.test] if isinstance(st, (ast.If, ast.While)) else ([it.context_expr for it in st.items] if isinstance(st, (ast.With, ast.AsyncWith)) else [])
             found = [n for h in heads for n in ast.walk(h) if criterion(n)]
         else:
             found = [n for n in ast.walk(st) if criterion(n)]
@@ -207,6 +207,11 @@ def compute_slice(fnode: ast.AST, criterion: Callable[[ast.AST], bool], stop: se
         for st in stmts:
             if isinstance(st, _COMPOUND):
                 if id(st) not in keep:
+                    # a criterion expression in the header of a dropped compound statement (``with f(x) as w:``,
+                    # ``if g(y):``) is evaluated where the statement stands; its body is dropped
+                    for n in crit.get(id(st), []):
+                        a = ast.Assign(targets=[ast.Name(id=f"__slice_{index[id(n)]}", ctx=ast.Store())], value=n)
+                        out.append(ast.fix_missing_locations(ast.copy_location(a, st)))
                     continue
                 c = copy.copy(st)
                 for f in ("body", "orelse", "finalbody"):
